@@ -9,7 +9,7 @@
     CANDIDATES' scores; [elapsed_time = now - start]. Random draws and the clock
     are oracles. Exceptions: [ValueError] of [min()/max()] on an empty sequence
     is [EOther], [IndexError] is [EIndex]. *)
-From JSL Require Import Base Instance Dstate Filters World RuleObservers.
+From JSL Require Import Base Instance Dstate Filters World Derived RuleObservers.
 
 Local Notation "x <- m ;; f" := (bind m (fun x => f)) (at level 61, m at next level, right associativity).
 Local Notation "m ;;; f" := (bind m (fun _ => f)) (at level 61, right associativity).
@@ -201,6 +201,18 @@ Section RulesM.
   Definition solve (r : rule) (c : chooser) (fs : list fname) (orc : nat -> nat * nat) : rwld * outcome :=
     solve_loop (run_rule r) c orc (num_ops I) 0 (init_w robs I fs).
 End RulesM.
+
+(** The value each scoring function has in a dispatcher state (uncached;
+    the scorer's observers read as what they hold when they are up to date). *)
+Definition sfun_vec (I : instance) (fs : list fname) (d : dstate) (s : sfun) : list Z :=
+  match s with
+  | SSpt => spt_score_of I (available I d fs)
+  | SFcfs => fcfs_score_of I (available I d fs)
+  | SMopnr => mopnr_score_of I (p_uncompleted I fs d)
+  | SMwkrObs _ => mask_ready (job_work I d) (ready_vec I fs d)
+  | SRandom dr => random_score_of I dr
+  | SGiven v => v
+  end.
 
 (** The solver's default [ready_operations_filter]:
     [(DOMINATED_OPERATIONS, NON_IDLE_MACHINES)]. *)
